@@ -406,7 +406,9 @@ impl Deb822 {
                     ));
                     current = vec![];
                 }
-                COMMENT | ERROR => {
+                // NEWLINE tokens directly below the root terminate comments emitted by an
+                // earlier wrap_and_sort
+                COMMENT | ERROR | NEWLINE => {
                     current.push(c);
                 }
                 EMPTY_LINE => {
